@@ -145,7 +145,7 @@ func ParseAsm(out string) *ParsedAsm {
 	return pa
 }
 
-var reGenSuffix = regexp.MustCompile(`^(.*)_(\d+)$`)
+var reGenSuffix = regexp.MustCompile(`^(.*)_(-?\d+)$`)
 
 // AnnotateRoles gives every label line a role and every jump its target kind.
 //
@@ -204,6 +204,10 @@ func AnnotateRolesRaw(pa *ParsedAsm, scriptNames map[string]bool, userLabels map
 				}
 			}
 			ln["tgt"] = tgt
+			// only the compiler writes conditional jumps and case lines (user
+			// commands with these names are outside the domain), so their
+			// targets are generated whatever they look like
+			condGen := tgt != "" && op != "goto"
 			hrefs := []string{}
 			for _, t := range ln["toks"].([]string)[1:] {
 				if reHoisted.MatchString(t) {
@@ -211,7 +215,7 @@ func AnnotateRolesRaw(pa *ParsedAsm, scriptNames map[string]bool, userLabels map
 				}
 			}
 			ln["hrefs"] = hrefs
-			ln["gen"] = tgt != "" && isGen(tgt)
+			ln["gen"] = tgt != "" && (isGen(tgt) || condGen)
 		}
 	}
 	return lab
